@@ -30,6 +30,19 @@ CHECKS = {
    "property testing with index-valued tags (expected tag sequence per block rule vs observed, under drip schedules)",
    "Harness tags whose value is their absolute index are attached every k-th input sample; the sequence of tags on each output must equal the expected one (same index / +delay / -skip / div decimation; first input only), so loss, duplication, misplacement and reordering are all visible; block-added tags are compared with the reference models.",
    "filters with group delay are held to the index rule their code documents; at most ~600 tags per port", "DESIGN.md §5 C12"),
+
+ "C10": ("E2 drip-feed driver + E3 reference models", "exploration",
+   "differential property testing against independent reference models (exact values and counts, chunked delivery)",
+   "The exactly-specified blocks (27 catalogue kinds) are run under generated drip schedules on generated inputs (all byte values, float specials, boundary parameters, lengths beyond capacity) and their complete output is compared with reference implementations written from the documentation; FftStream against a direct DFT within a stated norm bound.",
+   "StreamToPdu only for tail=0 and well-formed tag pairs; ToText without tags; NaN payloads canonicalised", "DESIGN.md §5 C10"),
+ "C16": ("E2 drip-feed driver", "exploration",
+   "model-based property testing (sources under consumption schedules vs data x repeat; Repeat API call sequences vs a 3-line model)",
+   "VectorSource, FileSource<u8/f32> and SigMFSource (recording pair and tar archive) are drained through 1-4 page streams under generated consumption schedules for repeat in {0,1,2,3,infinite} and data of 0..14k samples; output, EOF timing and VectorSource marker tags are compared with the model; Repeat::{again,done,count} sequences are model-checked.",
+   "file sizes are whole samples; infinite repeat of empty data excluded; no work() after EOF", "DESIGN.md §5 C16"),
+ "C19": ("E2 drip-feed driver", "exploration",
+   "property testing of macro-generated code with a per-call step-count oracle; exhaustive enumeration of eof() input states",
+   "Ten harness-defined blocks built with #[derive(Block)] (sync 1-2 inputs x 1-3 outputs, sync_tag, default/into fields, generated new() over copy and non-copy outputs) are driven with unequal inputs and unequal output space; every call must move exactly min(shortest input, smallest output space) samples on every stream and name an empty/full stream otherwise; values identify each output port; eof() is enumerated over all 4^n input states.",
+   "3-input sync blocks cannot be compiled with the macro (recorded, not a runtime violation)", "DESIGN.md §5 C19"),
 }
 
 NOT_YET = {}
